@@ -2088,6 +2088,16 @@ void Node::tick() {
         {
             SchedulerLock lock(scheduler_mutex_);
             dht_.sweep_expired();
+            // A cached manifest, and the swarm plan computed from it, end with the manifest's own expiry.
+            const auto wall_now = std::chrono::system_clock::now();
+            for (auto it = manifest_cache_.begin(); it != manifest_cache_.end();) {
+                if (it->second.expires_at <= wall_now) {
+                    swarm_plans_.erase(it->first);
+                    it = manifest_cache_.erase(it);
+                } else {
+                    ++it;
+                }
+            }
         }
         last_cleanup_ = now;
     }
